@@ -131,7 +131,7 @@ class World:
                 self.fid = fid
 
             def compute_fitness(self, individual):
-                return float(world.tF(self.fid, self._run_test_case_chromosome(individual).code))
+                return world.tF(self.fid, self._run_test_case_chromosome(individual).code) * UNIT
 
             def compute_is_covered(self, individual):
                 return world.tK(self.fid, self._run_test_case_chromosome(individual).code)
@@ -153,7 +153,7 @@ class World:
                 self.fid = fid
 
             def compute_fitness(self, individual):
-                return float(world.sF(self.fid, [r.code for r in self._run_test_suite_chromosome(individual)]))
+                return world.sF(self.fid, [r.code for r in self._run_test_suite_chromosome(individual)]) * UNIT
 
             def compute_is_covered(self, individual):
                 return world.sK(self.fid, [r.code for r in self._run_test_suite_chromosome(individual)])
@@ -243,6 +243,15 @@ def mk_tc(n: int):
     return t
 
 
+UNIT = 1.0   # fitness unit of the running history: fitness float = table value (0..4) * UNIT, UNIT a power of two.
+             # With a tiny unit (5e-324, 5.55e-17, 9e-13, just below/above 1e-9) all non-zero fitness values are
+             # near misses; sums stay exact, the abstract value is recovered by an exact division.
+
+
+def as_fit(x):
+    return as_int(x / UNIT)
+
+
 def as_int(x, scale=1):
     y = x * scale
     return int(y) if y == int(y) else -999
@@ -257,7 +266,7 @@ def obs_tc(world, ch):
         "changed": bool(ch.changed),
         "funcs": [f.fid for f in cache._fitness_functions],
         "cfuncs": [f.fid for f in cache._coverage_functions],
-        "fit": [(k.fid, as_int(v)) for k, v in cache._fitness_cache.items()],
+        "fit": [(k.fid, as_fit(v)) for k, v in cache._fitness_cache.items()],
         "isc": [(k.fid, bool(v)) for k, v in cache._is_covered_cache.items()],
         "cov": [(k.fid, as_int(v, 4)) for k, v in cache._coverage_cache.items()],
     }
@@ -270,7 +279,7 @@ def obs_suite(world, s):
         "changed": bool(s.changed),
         "funcs": [f.fid for f in cache._fitness_functions],
         "cfuncs": [f.fid for f in cache._coverage_functions],
-        "fit": [(k.fid, as_int(v)) for k, v in cache._fitness_cache.items()],
+        "fit": [(k.fid, as_fit(v)) for k, v in cache._fitness_cache.items()],
         "isc": [(k.fid, bool(v)) for k, v in cache._is_covered_cache.items()],
         "cov": [(k.fid, as_int(v, 4)) for k, v in cache._coverage_cache.items()],
     }
@@ -284,9 +293,9 @@ def do_query(ch, op, fits, covs):
     name = op[0]
     try:
         if name == "GetFitness":
-            return ("OVal", as_int(ch.get_fitness()))
+            return ("OVal", as_fit(ch.get_fitness()))
         if name == "GetFitnessFor":
-            return ("OVal", as_int(ch.get_fitness_for(fits[op[1]])))
+            return ("OVal", as_fit(ch.get_fitness_for(fits[op[1]])))
         if name == "GetIsCovered":
             return ("OBool", bool(ch.get_is_covered(fits[op[1]])))
         if name == "GetCoverageFor":
@@ -319,7 +328,7 @@ def generic_op(ch, op, fits, covs):
     elif name == "Invalidate":
         ch.invalidate_cache()
     elif name == "SetFit":
-        ch.set_fitness_values({fits[op[1]]: float(op[2])})
+        ch.set_fitness_values({fits[op[1]]: op[2] * UNIT})
     elif name == "SetCov":
         ch.set_coverage_values({covs[op[1]]: op[2] / 4.0})
     else:
@@ -388,7 +397,12 @@ def apply_tc_op(world, ch, op, E):
     return ch, ("OUnit",), ("Edit", o["content"], o["last"], o["changed"])
 
 
-def run_tc_history(seed, salt, cons, init, ops, scratch, exc=False, chop=None, maxlen=None):
+def set_unit(uexp):
+    global UNIT
+    UNIT = 2.0 ** int(uexp or 0)
+
+
+def run_tc_history(seed, salt, cons, init, ops, scratch, exc=False, chop=None, maxlen=None, uexp=0):
     """Returns list of steps: dict(op, modelop, before, after, out)."""
     from pynguin.ga.testcasechromosome import TestCaseChromosome
     from pynguin.utils import randomness
@@ -396,6 +410,7 @@ def run_tc_history(seed, salt, cons, init, ops, scratch, exc=False, chop=None, m
     E = env(scratch)
     set_search_config(chop, maxlen)
     randomness.RNG.seed(seed)
+    set_unit(uexp)
     world = World(salt, cons, exc)
     world.code(mk_tc(0))
     ch = TestCaseChromosome(mk_tc(init), E["factory"])
@@ -545,12 +560,13 @@ def scratch_suite(world, s, op, E):
     return out
 
 
-def run_suite_history(seed, salt, cons, ops, scratch, exc=False, chop=None, maxlen=None, eager=False):
+def run_suite_history(seed, salt, cons, ops, scratch, exc=False, chop=None, maxlen=None, eager=False, uexp=0):
     from pynguin.utils import randomness
 
     E = env(scratch)
     set_search_config(chop, maxlen)
     randomness.RNG.seed(seed)
+    set_unit(uexp)
     world = World(salt, cons, exc, eager)
     world.code(mk_tc(0))
     s = new_suite(world, E)
